@@ -177,6 +177,30 @@ class C05(Check):
                         broken.append(Broken("correspondence", "Link.status vs Tank.status", "%s: kind=%s _user_status=%s _internal_status=%s: impl %s model %s" % ((label,) + key + (ans,))))
 
                 B.ask("stat %s %s %s" % (key[0], F(key[1]), F(key[2])), cb_s)
+        # --- registration order of the control managers vs `Controls.simulatorControls`
+        od = getattr(tr, "order", None)
+        if od and "error" not in od and od["user_link_only"] and len(spec["controls"]) == len([1 for _ in wn.controls()]):
+            toks = []
+            for k, c in enumerate(spec["controls"]):
+                li = tr.links.index(c["link"])
+                a = c.get("act", "status")
+                v = (1.0 if c["value"] == "OPEN" else 0.0) if a == "status" else float(c["value"])
+                toks.append("%d %d %d %s %s %s" % (k, c["prio"], li, tr.kinds[li], {"status": "status", "setting": "setting", "base_speed": "speed"}[a], F(v)))
+            ctx.case(("order", sig))
+            ctx.count("registration-order")
+
+            def cb_o(ans, od=od):
+                model = [int(x) for x in ans.split()]
+                for which in ("pre", "post"):
+                    real = od[which]
+                    want = [i for i in model if i in set(real)]
+                    if real != want:
+                        broken.append(Broken("correspondence", "_get_control_managers registration order vs Controls.simulatorControls",
+                                             "%s %ssolve manager:\n impl  %s\n model %s  (user k, tank 10000+, cv 20000+, pump companion 1000+k, pump internal 30000+, "
+                                             "valve companion 2000+k, valve internal 40000+)" % (label, which, real, want)))
+                        break
+
+            B.ask("order 1000 %d %s %d %d %d %d" % ((len(spec["controls"]), " ".join(toks)) + tuple(od["counts"])), cb_o)
         # --- companions of setting / base_speed controls (_get_pump_controls / _get_valve_controls)
         allc = spec["controls"]
         if any(c.get("act", "status") != "status" for c in allc):
@@ -310,6 +334,13 @@ class C05(Check):
             cvpump.append(1 if (tr.kinds[i] == "pump" or (tr.kinds[i] == "pipe" and l.check_valve)) else 0)
             adj.append([tids[n] for n in (l.start_node_name, l.end_node_name) if n in tankset])
         band = tr.htol + 1e-9
+        # the statement speaks about the REPORTED state: conditions and link states are read off the result tables
+        # (results.node['pressure'|'head'], results.link['status'|'setting']; tank level = reported pressure)
+        res = tr.results
+        use_tables = res is not None and len(res.node["head"].index) == len(rows)
+        if use_tables:
+            ctx.count("oracle-on-result-tables")
+        FOLD = {"gt": "ge", "lt": "le"}
         for ri, r in enumerate(rows):
             toks = ["step", F(band), "T", str(len(tr.tank_names))]
             for n in tr.tank_names:
@@ -317,6 +348,10 @@ class C05(Check):
             toks += ["L", str(len(tr.links))]
             for i, ln in enumerate(tr.links):
                 st, se = r["links"][ln]
+                if use_tables:
+                    st = float(res.link["status"][ln].iloc[ri])
+                    if tr.kinds[i] == "valve":
+                        se = float(res.link["setting"][ln].iloc[ri])
                 toks += [F(st), F(se), str(cvpump[i]), str(len(adj[i]))] + [str(a) for a in adj[i]]
             ctoks = []
             ambiguous = set()
@@ -324,7 +359,12 @@ class C05(Check):
             for k, c in enumerate(ctl):
                 li = tr.links.index(c["link"])
                 act = c.get("act", "status")
-                if c["src"] in tankset:
+                if use_tables:
+                    table = "head" if c["attr"] == "head" else "pressure"
+                    cur = float(res.node[table][c["src"]].iloc[ri])
+                    # a tank condition compares with gt/lt folded into ge/le (TankLevelCondition)
+                    ctok = ["V", FOLD.get(c["rel"], c["rel"]) if c["src"] in tankset else c["rel"], F(c["thr"]), F(cur)]
+                elif c["src"] in tankset:
                     ctok = ["L", str(tids[c["src"]]), c["attr"], c["rel"], F(c["thr"])]
                     h = r["tanks"][c["src"]][0]
                     cur = h if c["attr"] == "head" else h - tr.tanks[c["src"]]["elev"]
@@ -382,24 +422,30 @@ class C05(Check):
             B.ask("rows %d %d %s" % (tids[n], len(rr), " ".join("%s %s %s" % (F(t), F(h), F(q)) for t, h, q in rr)))
         judged = {}
         for k, c in enumerate(ctl):
-            if c["src"] not in tankset or c.get("act", "status") != "status":
+            act = c.get("act", "status")
+            if c["src"] not in tankset or act not in ("status", "setting"):
                 continue
-            val = 1.0 if c["value"] == "OPEN" else 0.0
+            val = (1.0 if c["value"] == "OPEN" else 0.0) if act == "status" else float(c["value"])
             p = tr.tanks[c["src"]]
             for i in range(len(rows) - 1):
                 a, b = rows[i], rows[i + 1]
                 li = tr.links.index(c["link"])
-                u, it = a["priv"][li][:2]
+                if act == "setting":
+                    # the write changes the valve's `setting` (a tracked target): a partial step is due when it took effect
+                    if a["priv"][li][2] == val or b["links"][c["link"]][1] != val:
+                        continue
+                else:
+                    u, it = a["priv"][li][:2]
 
-                def status(user, internal, kind=tr.kinds[li]):
-                    if kind == "valve":
-                        return user if user in (0.0, 1.0) else internal
-                    return 0.0 if internal == 0.0 else user
+                    def status(user, internal, kind=tr.kinds[li]):
+                        if kind == "valve":
+                            return user if user in (0.0, 1.0) else internal
+                        return 0.0 if internal == 0.0 else user
 
-                # a partial step is due to this control only if its action (write `val` into _user_status on the state the
-                # presolve pass starts from = the previous reported state) changes the link's status, and it took effect
-                if status(val, it) == status(u, it) or b["links"][c["link"]][0] != val:
-                    continue
+                    # a partial step is due to this control only if its action (write `val` into _user_status on the state the
+                    # presolve pass starts from = the previous reported state) changes the link's status, and it took effect
+                    if status(val, it) == status(u, it) or b["links"][c["link"]][0] != val:
+                        continue
 
                 def cb2(ans, c=c, a=a, b=b, p=p, k=k):
                     if ans == "na":
@@ -445,6 +491,8 @@ class C05(Check):
         specs.append(("designed/priority-conflict-high-last", K.priority_conflict_spec(False), None))
         specs.append(("designed/priority-conflict-equal", K.priority_conflict_spec(True, True), None))
         # a RULE with a tank-level premise, rule step < hydraulic step, alone and next to a simple level control
+        specs.append(("designed/specific-gravity-0.8", K.specific_gravity_spec(0.8), None))
+        specs.append(("designed/specific-gravity-1.2", K.specific_gravity_spec(1.2), None))
         specs.append(("designed/rule-level-premise", K.rule_level_spec(False), None))
         specs.append(("designed/rule-level-premise+simple", K.rule_level_spec(True), None))
         # setting / base_speed controls of low priority against an explicit CLOSED of higher priority (companion controls)
